@@ -101,13 +101,14 @@ PROPS["C07"] = dict(
                "in the Verus units with the same clause text; primality of the moduli / Fermat for inv; type shims "
                "for BaseElement in the Verus files. Functions not under contract are listed in DESIGN.md 4.C07.",
     explanation="",
-    trusted=["primality of the three moduli; Fermat's little theorem (x^(M-1) = 1) for the step inv(x) = x^(M-2)",
+    trusted=["primality of the three moduli; Fermat's little theorem (x^(M-1) = 1) for the step inv(x) = x^(M-2) of the 64-bit field",
+             "termination of f62::inv's binary-Euclid loops (needs gcd(x, M) = 1): the Verus contract is a partial-correctness statement",
              "mathematical lifting from the Montgomery witness identity to residues where no Verus lemma covers it"],
     not_decided=[],
 )
 
 verus_unit("f64v", "f64", ["C07"], ["f64::BaseElement::new", "f64::Mul::mul", "traits::FieldElement::square", "f64::exp", "f64::exp_acc", "f64::inv", "f64::exp7", "f64::Div::div", "f64::Neg::neg", "f64::StarkField::as_int", "f64::From<u32>"])
-verus_unit("f62v", "f62", ["C07"], ["f62::mul", "f62::add", "f62::sub", "f62::normalize", "f62::Add/Sub/Mul/Neg", "f62::new", "f62::as_int", "f62::double", "square", "f62::eq", "f62::exp", "traits::FieldElement::exp_vartime (u64 instantiation)"])
+verus_unit("f62v", "f62", ["C07"], ["f62::mul", "f62::add", "f62::sub", "f62::normalize", "f62::Add/Sub/Mul/Neg", "f62::new", "f62::as_int", "f62::double", "square", "f62::eq", "f62::exp", "traits::FieldElement::exp_vartime (u64 instantiation)", "f62::inv (partial correctness: x * inv(x) == 1 for x != 0, inv(0) == 0; termination of the Euclid loops not proved)"])
 
 for _u, _fns in (("f64x", ["f64::ExtensibleField<2>::{mul,square,mul_base,frobenius}", "f64::ExtensibleField<3>::{mul,square,mul_base,frobenius}"]),
                  ("f62x", ["f62::ExtensibleField<2>::{mul,mul_base,frobenius}", "f62::ExtensibleField<3>::{mul,mul_base,frobenius}"]),
